@@ -11,7 +11,7 @@ PROP = 'C14'
 def main(tier, seed):
     t0 = time.time()
     ws = [2] if tier == 'quick' else [2, 3, 4]
-    items = fam_ops.twin_family(seed, tier, ws)
+    items = fam_ops.twin_family(seed, tier, ws) + fam_ops.fold_family([2, 3] if tier == 'quick' else [2, 3, 4])
     keep, rejected = [], []
     for it in items:
         it.meta.setdefault('classifier', {})['twin'] = True
@@ -20,6 +20,9 @@ def main(tier, seed):
             keep.append(it)
         except hidc_api.Rejected as e:
             # a constant form the compiler rejects: judge the twin alone - it must fault
+            if 'twin' not in it.meta:
+                keep.append(it)
+                continue
             a, b, args = it.meta['twin']
             rejected.append(runner.Item(it.key + ('rej',), b, args, w=it.w, s=it.s,
                                         meta={'family': it.meta['family'] + ':rejected', 'rejected_msg': str(e), 'const_src': a}))
